@@ -224,6 +224,22 @@ def leftoverOf : List Ev → List Nat
   | _ :: r => leftoverOf r
 
 
+/-- `forwarded_chunks_total` of the client's metrics: counted as soon as `SendChunk` has returned nil (sendChunk, after the
+repair of F-18) — one per complete transmission, retransmissions included -/
+def forwardedN : List Ev → Nat
+  | [] => 0
+  | .sendOk _ _ :: r => forwardedN r + 1
+  | _ :: r => forwardedN r
+
+/-- `acknowledged_chunks_total`: counted next to the `OnChunkConsumed` callback in the acknowledger -/
+def acknowledgedN (h : List Ev) : Nat := (consumedOf h).length
+
+/-- chunks completely transmitted, in order (with repetitions) -/
+def sentOkOf : List Ev → List Nat
+  | [] => []
+  | .sendOk _ c :: r => c :: sentOkOf r
+  | _ :: r => sentOkOf r
+
 /-- ids transmitted (attempted) on connection `k`, in order -/
 def sentOn (k : Nat) : List Ev → List Nat
   | [] => []
